@@ -163,3 +163,66 @@ def drive(ns, adj, app, pieces, service="end", sock=None, sym_headers=True):
         exc = "%s: %s" % (type(e).__name__, e if not any(isinstance(a, SymSeq) for a in e.args) else "<sym>")
     return dict(wire=sock.wire(), calls=app.calls, closing=closing(ch), closed=sock.closed,
                 pending=ch.request is not None, queued=len(ch.requests), sock=sock, ch=ch, exc=exc)
+
+
+class ListenSock:
+    """listening socket stand-in for constructing a real TcpWSGIServer (never accepts)"""
+
+    def __init__(self, fd=3):
+        self.fd = fd
+        self.closed = 0
+        self.family = 2
+        self.type = 1
+        self.proto = 0
+
+    def setblocking(self, f): pass
+    def fileno(self): return self.fd
+    def getsockopt(self, *a): return 0
+    def setsockopt(self, *a): pass
+    def bind(self, a): pass
+    def listen(self, n): pass
+    def getsockname(self): return ("127.0.0.1", 8080)
+    def accept(self): raise BlockingIOError(11, "EAGAIN")
+    def close(self): self.closed += 1
+
+
+def real_server(ns, adj, app):
+    """a real TcpWSGIServer (real __init__: proxy middleware wrapping, trigger, map) with a synchronous dispatcher"""
+    disp = env.SeqDispatcher()
+    srv = ns.server.TcpWSGIServer(app, map={}, _start=False, _sock=ListenSock(), dispatcher=disp, adj=adj, sockinfo=(2, 1, 0, ("127.0.0.1", 8080)))
+    srv.pull_trigger = lambda: None  # the I/O loop is not running in the sequential harness
+    return srv
+
+
+def drive_real(ns, adj, app, pieces, addr=("127.0.0.1", 50000), sym_headers=True):
+    srv = real_server(ns, adj, app)
+    try:
+        sock = env.SimSocket(fd=9)
+        symbolic = active() and ns.__dict__.get("_is_instrumented", False)
+
+        class Chan(ns.channel.HTTPChannel):
+            pass
+
+        if symbolic and sym_headers:
+            class Parser(ns.parser.HTTPRequestParser):
+                def __init__(self, a):
+                    super().__init__(a)
+                    self.headers = SymDict()
+            Chan.parser_class = Parser
+        ch = Chan(srv, sock, addr, adj, map=srv._map)
+        exc = None
+        try:
+            for p in pieces:
+                ch.received(p)
+                srv.task_dispatcher.run_all()
+            for _ in range(3):
+                if ch.connected and ch.writable():
+                    ch.handle_write()
+        except Exception as e:  # noqa
+            if isinstance(e, (RecursionError, MemoryError)):
+                from wsx.core import Unsupported
+                raise Unsupported("engine resource error: %r" % e)
+            exc = type(e).__name__
+        return dict(wire=sock.wire(), closing=closing(ch), exc=exc)
+    finally:
+        srv.close()
